@@ -495,7 +495,10 @@ class BzrGitMapping(foreign.VcsMapping):
         except AttributeError:
             extra = commit.extra
         if "git-extra" in rev.properties:
-            for l in rev.properties["git-extra"].splitlines():
+            extra_lines = rev.properties["git-extra"].split("\n")
+            if extra_lines[-1] == "":
+                extra_lines.pop()
+            for l in extra_lines:
                 (k, v) = l.split(" ", 1)
                 extra.append(
                     (
